@@ -148,6 +148,30 @@ Proof.
   - rewrite vget_assign_same. lia.
 Qed.
 
+(* start() -- also a re-start after stop() -- of any well-formed (constructed / stopped) state: the own entry becomes the own
+   sequence number, nothing else moves, the state stays well-formed.  Publications made while the instance is not running
+   are [new_data] steps of that state ([publish] below holds for every state). *)
+Lemma wf_construct c last : wf c (construct last).
+Proof. split; cbn; [constructor|lia]. Qed.
+
+Lemma wf_start c s : wf c s -> wf c (start c s).
+Proof.
+  intros [ND LE]. split; cbn; rewrite sv_set_assign.
+  - apply nodup_assign. assumption.
+  - rewrite vget_assign_same. lia.
+Qed.
+
+Lemma start_spec c s :
+  self_seq (start c s) = self_seq s /\
+  vget (local (start c s)) (c_self c) = self_seq s /\
+  (forall k, k <> c_self c -> vget (local (start c s)) k = vget (local s) k) /\
+  next_timing (start c s) = next_timing s /\ mode (start c s) = mode s.
+Proof.
+  cbn. rewrite sv_set_assign. repeat split.
+  - apply vget_assign_same.
+  - intros k H. apply vget_assign_other. assumption.
+Qed.
+
 Lemma handle_vector_wf c s now r es : wf c s -> wf c (fst (handle_vector c s now r es)).
 Proof.
   intros [ND LE]. destruct (handle_vector c s now r es) as [s' o] eqn:H. cbn [fst].
